@@ -330,6 +330,6 @@ def replay(ctx, rep):
     cls, v = read_with_budget(t)
     _generic(ctx, t, cls, v, None)
     outs = ctx.tlc_shards('MC_Ring', 'MC_Ring.cfg', nshards=1, env={'VIN': _vin(ctx, {'texts': [codes(t)]})})
-    spec = outs[0]['res']['1']
+    spec = (outs[0]['res'][0] if isinstance(outs[0]['res'], list) else outs[0]['res']['1'])
     if cls not in spec['allowed']:
         ctx.violation('read:%r' % t, 'Read(%r) -> %s; spec allows %s' % (t, cls, spec['allowed']), rep['case'])
